@@ -1237,7 +1237,19 @@ impl BreakpointRegistry {
                 errors.push(e);
             }
 
-            let addr = Address::Global(brkpt.addr.into_global(debugee)?);
+            let global_addr = match brkpt.addr.into_global(debugee) {
+                Ok(addr) => addr,
+                // the object with this breakpoint is not mapped anymore, only a user breakpoint
+                // knows its address inside the object, the rest of breakpoints must be processed
+                Err(e) => match brkpt.place.as_ref() {
+                    Some(place) if brkpt.r#type == BrkptType::UserDefined => place.address,
+                    _ => {
+                        errors.push(e);
+                        continue;
+                    }
+                },
+            };
+            let addr = Address::Global(global_addr);
             match brkpt.r#type {
                 BrkptType::EntryPoint => {
                     self.add_uninit(UninitBreakpoint::new_entry_point(
